@@ -3,6 +3,8 @@
 package props
 
 import (
+	"github.com/uhn/ggql/pkg/ggql"
+
 	"fmt"
 	"strings"
 	"time"
@@ -55,6 +57,8 @@ func c12Menu() []c12Req {
 		{Name: "mutation", Text: `mutation M{set(s:"v") a{id}}`, Op: "M"},
 		// a field the reflection structs have nothing for: the lazy binding fails (and must fail again, not block, the next time)
 		{Name: "input-arguments", Text: `{pick(i: 1, e: RED, in: {min: 1, sub: {min: 2}}, ids: ["a"], m: [[1]]) a{pick(in: {min: 3})}}`},
+		// the resolvers of two requests wait for each other: nothing the library holds while it calls a resolver may keep the other out
+		{Name: "rendezvous", Text: `{meet a{id}}`},
 		{Name: "unbound-field", Text: `{a{ghost id} b{ghost}}`, Abstract: true},
 		{Name: "unbound-field-in-list", Text: `{as{id ghost} ghost}`, Abstract: true},
 	}
@@ -64,15 +68,27 @@ type c12Cfg struct {
 	Name string
 	Cfg  func(s *world.Schema) world.Config
 	God  int
+	Post func(root *ggql.Root) // applied to every freshly built root before any request
+}
+
+// c12AddSubscription adds an operation root type through the Go API after the SDL load (the implied schema was made up
+// without it): anything that completes the schema lazily would do so on the request path, for the first requests at once.
+func c12AddSubscription(root *ggql.Root) {
+	o := &ggql.Object{Base: ggql.Base{N: "Subscription"}}
+	_ = o.AddField(&ggql.FieldDef{Base: ggql.Base{N: "ev"}, Type: &ggql.Ref{Base: ggql.Base{N: "Int"}}})
+	if err := root.AddTypes(o); err != nil {
+		panic(core.EngineError{Msg: "C12: AddTypes(Subscription) refused: " + err.Error()})
+	}
 }
 
 func c12Cfgs() []c12Cfg {
 	return []c12Cfg{
-		{"FS/byname-cold", func(s *world.Schema) world.Config { return world.Config{Strat: world.FS, Bind: world.BindByName, Schema: s} }, 0},
-		{"FS/go-directive", func(s *world.Schema) world.Config { return world.Config{Strat: world.FS, Bind: world.BindGoDir, Schema: s} }, 2},
-		{"FS/registered", func(s *world.Schema) world.Config { return world.Config{Strat: world.FS, Bind: world.BindRegister, Schema: s} }, 0},
-		{"RS", func(s *world.Schema) world.Config { return world.Config{Strat: world.RS, Schema: s} }, 0},
-		{"AS", func(s *world.Schema) world.Config { return world.Config{Strat: world.AS, Schema: s} }, 0},
+		{"FS/byname-cold", func(s *world.Schema) world.Config { return world.Config{Strat: world.FS, Bind: world.BindByName, Schema: s} }, 0, nil},
+		{"FS/go-directive", func(s *world.Schema) world.Config { return world.Config{Strat: world.FS, Bind: world.BindGoDir, Schema: s} }, 2, nil},
+		{"FS/registered", func(s *world.Schema) world.Config { return world.Config{Strat: world.FS, Bind: world.BindRegister, Schema: s} }, 0, nil},
+		{"RS", func(s *world.Schema) world.Config { return world.Config{Strat: world.RS, Schema: s} }, 0, nil},
+		{"AS", func(s *world.Schema) world.Config { return world.Config{Strat: world.AS, Schema: s} }, 0, nil},
+		{"RS/root-type-added-by-AddTypes", func(s *world.Schema) world.Config { return world.Config{Strat: world.RS, Schema: s} }, 0, c12AddSubscription},
 	}
 }
 
@@ -142,8 +158,12 @@ func runC12(c *core.Ctx) {
 			if err != nil {
 				panic(core.EngineError{Msg: err.Error()})
 			}
+			if sc.cfg.Post != nil {
+				sc.cfg.Post(root)
+			}
 			var o *world.Obs
 			rq := rq
+			run.OnMeet = nil // alone: nobody to wait for
 			res := sched.Run(&core.Chooser{}, false, func(*sched.Sched) { o = world.Observe(root, run, rq.Text, rq.Op, rq.Vars) })
 			if res.Deadlock {
 				c.Outcome("deadlock")
@@ -177,11 +197,28 @@ func runC12(c *core.Ctx) {
 			if err != nil {
 				panic(core.EngineError{Msg: err.Error()})
 			}
+			if sc.cfg.Post != nil {
+				sc.cfg.Post(root)
+			}
 			got := make([]*world.Obs, len(sc.reqs))
+			expected, arrived := 0, 0
+			for _, rq := range sc.reqs {
+				if strings.Contains(rq.Text, "meet") {
+					expected++
+				}
+			}
+			var theSched *sched.Sched
+			run.OnMeet = func() {
+				arrived++
+				if theSched != nil {
+					theSched.Await(func() bool { return arrived >= expected })
+				}
+			}
 			bodies := make([]func(*sched.Sched), len(sc.reqs))
 			for ti := range sc.reqs {
 				ti := ti
-				bodies[ti] = func(*sched.Sched) {
+				bodies[ti] = func(s *sched.Sched) {
+					theSched = s
 					rq := sc.reqs[ti]
 					got[ti] = world.Observe(root, run, rq.Text, rq.Op, rq.Vars)
 				}
